@@ -46,6 +46,8 @@ type loopInfo struct {
 	phiHavoc map[*ssa.Phi]Val
 	variant0 string
 	stHeader *State
+	stEntry   *State
+	entryPhis map[*ssa.Phi]Val
 }
 
 type retInfo struct {
@@ -472,6 +474,8 @@ func (a *Act) enterLoop(li *loopInfo, st *State) *State {
 	entryPhis, _ := a.phiEntryVals(li)
 	lname := fmt.Sprintf("loop%d", li.ord)
 	a.vc.comment(fmt.Sprintf("---- %s header b%d", lname, h.Index))
+	li.stEntry = st.clone()
+	li.entryPhis = entryPhis
 	// 1. dry run to find touched components
 	li.allocLE = a.alloc(st)
 	if li.touched == nil {
